@@ -9,19 +9,15 @@ ROOT = os.path.dirname(os.path.dirname(os.path.abspath(__file__)))
 sys.path.insert(0, ROOT)
 
 
-def run_job(job):
+def run_concrete(case, model):
+    """run a case function on floats taken from `model` against the unpatched code (caller guarantees that)"""
     warnings.simplefilter("ignore")
     import numpy as np
     np.seterr(all='ignore')
-    from symx import loader, engine
-    from symx.number import PathAbort
-    from symx.run import list_cases
-    loader.import_spectrum()
-    cases = [c for c in list_cases(job['check'], job.get('tier', 'quick'), job.get('seed', 0)) if c.name == job['case']]
-    if not cases:
-        return dict(error="case not found: %s" % job['case'], reproduced=False)
-    case = cases[0]
-    h = engine.Harness('replay', job.get('model') or {})
+    from symx import engine
+    from symx.number import PathAbort, set_ctx
+    set_ctx(None)
+    h = engine.Harness('replay', model or {})
     out = dict(reproduced=False)
     try:
         case.fn(h, **case.params)
@@ -31,11 +27,62 @@ def run_job(job):
         tb = traceback.extract_tb(sys.exc_info()[2])
         where = "%s:%d" % (os.path.basename(tb[-1].filename), tb[-1].lineno) if tb else "?"
         h.fails.append(("unexpected-exception:%s" % type(e).__name__, "%s at %s" % (str(e)[:200], where)))
-    out['fails'] = [[l, d[:300]] for l, d in h.fails][:20]
+    out['fails'] = [[l, d[:300]] for l, d in h.fails][:40]
     out['checked'] = len(h.checked)
     out['inputs'] = h.inputs
     out['reproduced'] = bool(h.fails)
     return out
+
+
+def run_job(job):
+    from symx import loader
+    from symx.run import list_cases
+    loader.import_spectrum()
+    cases = [c for c in list_cases(job['check'], job.get('tier', 'quick'), job.get('seed', 0)) if c.name == job['case']]
+    if not cases:
+        cases = [c for c in list_cases(job['check'], 'thorough', job.get('seed', 0)) if c.name == job['case']]
+    if not cases:
+        return dict(error="case not found: %s" % job['case'], reproduced=False)
+    return run_concrete(cases[0], job.get('model'))
+
+
+def run_forked(case, model, timeout=120):
+    """fast path used by the runner: fork, drop the symbolic patches in the child, run on floats"""
+    import multiprocessing as mp
+    import signal
+    ctxm = mp.get_context("fork")
+    parent, child = ctxm.Pipe(duplex=False)
+
+    def body(conn):
+        try:
+            from symx import loader
+            loader.uninstall()
+            conn.send(run_concrete(case, model))
+        except BaseException as e:      # noqa
+            try:
+                conn.send(dict(error="%s: %s" % (type(e).__name__, traceback.format_exc()[-600:]), reproduced=False))
+            except Exception:
+                pass
+        finally:
+            conn.close()
+            os._exit(0)
+    p = ctxm.Process(target=body, args=(child,))
+    p.start()
+    child.close()
+    res = None
+    if parent.poll(timeout):
+        try:
+            res = parent.recv()
+        except EOFError:
+            res = None
+    if p.is_alive():
+        try:
+            os.kill(p.pid, signal.SIGKILL)
+        except OSError:
+            pass
+    p.join()
+    parent.close()
+    return res or dict(error="replay timed out / crashed", reproduced=False)
 
 
 def cli(cid, path):
